@@ -229,3 +229,10 @@ func init() {
 }
 
 var execThroughPrefixes []string
+
+// dependency source files whose functions are executed from SSA
+var execThroughFiles = []string{
+	"cosmos-sdk@v0.45.2/types/int.go",
+	"cosmos-sdk@v0.45.2/types/uint.go",
+	"cosmos-sdk@v0.45.2/types/coin.go",
+}
